@@ -316,8 +316,8 @@ static void lockstep(const vh::Lines &ls) {
 			std::unique_lock<std::mutex> lk(x->m);
 			x->job = job; x->has_job = true; x->done = false; x->asserted = false;
 			x->cv.notify_all();
-			if(!x->cv.wait_for(lk, std::chrono::seconds(20), [&] { return x->done; })) {
-				vh::oracle("deadlock", "%s() of agent %d did not return within 20 s", op_name(op), t);
+			if(!x->cv.wait_for(lk, std::chrono::seconds(3), [&] { return x->done; })) {
+				vh::oracle("deadlock", "%s() of agent %d did not return within 3 s (all other agents are suspended)", op_name(op), t);
 				fflush(stdout); _exit(96);
 			}
 		}
@@ -424,9 +424,9 @@ static void stress(const vh::Lines &ls) {
 				tl_op = OP_QS; ag()->quiescent_state();
 				tl_op = OP_RUN; ag()->run(); tl_op = OP_NONE;
 				if(giveup.load()) break;
-				if(std::chrono::steady_clock::now() - t0 > std::chrono::seconds(20)) {
+				if(std::chrono::steady_clock::now() - t0 > std::chrono::seconds(8)) {
 					if(!giveup.exchange(true))
-						vh::oracle("lost-grace-period", "%ld of %ld registered callbacks not invoked after 20 s of all agents passing quiescent states and calling run()",
+						vh::oracle("lost-grace-period", "%ld of %ld registered callbacks not invoked after 8 s of all agents passing quiescent states and calling run()",
 								c.registered.load() - c.fired.load(), c.registered.load());
 					break;
 				}
@@ -445,9 +445,9 @@ static void stress(const vh::Lines &ls) {
 	// watchdog for calls that never return
 	std::atomic<bool> alldone{false};
 	std::thread dog([&] {
-		for(int i = 0; i < 600 && !alldone.load(); i++) std::this_thread::sleep_for(std::chrono::milliseconds(100));
+		for(int i = 0; i < 250 && !alldone.load(); i++) std::this_thread::sleep_for(std::chrono::milliseconds(100));
 		if(!alldone.load()) {
-			vh::oracle("deadlock", "stress run did not finish within 60 s (a call never returned)");
+			vh::oracle("deadlock", "stress run did not finish within 25 s (a call never returned)");
 			fflush(stdout); _exit(96);
 		}
 	});
